@@ -157,6 +157,11 @@ func checkC16(c c16Case, rec *Rec) *Violation {
 		}
 		wantG := want&rules.CosmeticOptionCSS != 0 && want&rules.CosmeticOptionGenericCSS != 0
 		wantS := want&rules.CosmeticOptionCSS != 0
+		for _, h := range []string{"example.org.", "sub..example.org", ".example.org", "other.example"} {
+			if g := inList(".generic", e.GetCosmeticResult(h, got).ElementHiding.Generic); g != wantG {
+				return viol(id, "C16:engine-selectors", "rule %q: option %03b: generic selector for host %q present=%v, want %v", c16RuleText(c), got, h, g, wantG)
+			}
+		}
 		if got == want && (hasG != wantG || hasS != wantS) {
 			return viol(id, "C16:engine-selectors", "rule %q: option %03b but generic selector present=%v (want %v), specific present=%v (want %v)",
 				c16RuleText(c), got, hasG, wantG, hasS, wantS)
